@@ -433,6 +433,49 @@ func exec(line string) zv.Out {
 			}
 		}
 		return zv.Out{Go: strings.Join(outs, ","), Viol: viol, Tags: tags}
+	case "em":
+		c := certSpec{oids: parseOids(f[2]), dns: unHexList(f[3]), ips: unHexList(f[4]), cn: string(zv.UnHex(f[5]))}
+		host := string(zv.UnHex(f[6]))
+		ipStrs := unHexList(f[7])
+		cert := c.build()
+		viol := ""
+		if len(ipStrs) != len(cert.IPAddresses) {
+			panic("c09 em: ipstr list does not belong to the IP SAN list")
+		}
+		for i, ip := range cert.IPAddresses {
+			if ip.String() != ipStrs[i] {
+				viol = fmt.Sprintf("em line carries %q for IP SAN %x but net.IP.String gives %q", ipStrs[i], []byte(ip), ip.String())
+			}
+		}
+		var err error = x509.HostnameError{Certificate: cert, Host: host}
+		msg := err.Error()
+		// T3: independent classification of the message
+		tag := ""
+		var want string
+		switch {
+		case net.ParseIP(host) != nil && len(c.ips) == 0:
+			tag = "em-ip-no-ipsans"
+			want = "x509: cannot validate certificate for " + host + " because it doesn't contain any IP SANs"
+		case net.ParseIP(host) != nil:
+			tag = "em-ip-list"
+			want = "x509: certificate is valid for " + strings.Join(ipStrs, ", ") + ", not " + host
+		case cert.ZVHasSANExtension() && len(strings.Join(c.dns, "")) == 0 && len(c.dns) <= 1:
+			tag = "em-san-no-names"
+			want = "x509: certificate is not valid for any names, but wanted to match " + host
+		case cert.ZVHasSANExtension():
+			tag = "em-dns-list"
+			want = "x509: certificate is valid for " + strings.Join(c.dns, ", ") + ", not " + host
+		case c.cn == "":
+			tag = "em-cn-empty"
+			want = "x509: certificate is not valid for any names, but wanted to match " + host
+		default:
+			tag = "em-cn"
+			want = "x509: certificate is valid for " + c.cn + ", not " + host
+		}
+		if msg != want && viol == "" {
+			viol = fmt.Sprintf("HostnameError{%q}.Error() = %q, documented form %q", host, msg, want)
+		}
+		return zv.Out{Go: zv.Hex([]byte(msg)), Viol: viol, Tags: []string{"em", tag}}
 	}
 	panic("c09: unknown sub-op " + f[1])
 }
@@ -793,6 +836,26 @@ func gen(g *zv.Gen) {
 			hosts = append(hosts, h)
 		}
 		g.Emitf("c09 vh %s %s %s %s %s", oidsStr(c.oids), hexList(c.dns), hexList(c.ips), zv.Hex([]byte(c.cn)), hexList(hosts))
+		if i%3 == 0 { // HostnameError.Error on the Host values VerifyHostname would put into the error (and on the raw host)
+			var ss []string
+			for _, b := range c.ips {
+				ss = append(ss, net.IP([]byte(b)).String())
+			}
+			if r.Chance(15) {
+				c.dns = nil
+			} else if r.Chance(10) {
+				c.dns = []string{""}
+			}
+			if r.Chance(25) {
+				c.ips, ss = nil, nil
+			}
+			for _, h := range hosts[:1+r.Intn(len(hosts))] {
+				if len(h) >= 3 && h[0] == '[' && h[len(h)-1] == ']' && r.Chance(70) {
+					h = h[1 : len(h)-1]
+				}
+				g.Emitf("c09 em %s %s %s %s %s %s", oidsStr(c.oids), hexList(c.dns), hexList(c.ips), zv.Hex([]byte(c.cn)), zv.Hex([]byte(h)), hexList(ss))
+			}
+		}
 	}
 }
 
@@ -802,5 +865,6 @@ func init() {
 			"mh: every pattern x host pair over S with both lengths <= 3 (one line per pattern, 1111 hosts each), every pattern of length 4 (thorough: 4-5) with hosts derived from it, random multi-label names with mutated hosts; " +
 			"ip: net.ParseIP vs the Lean parseIP on every string over {1,0,f,':','.'} up to length 7/9, every string over S up to length 4, random IPv4/IPv6/IPv4-mapped spellings with mutations; " +
 			"vh: VerifyHostname on hand-built certificates: every pattern over S of length <= 2 as the only DNS SAN / as CN without SAN / as second SAN, against every host over S up to length 4/5, plus random certificates (0-3 DNS SANs, 0-3 IP SANs incl. 4-byte/16-byte/truncated, CN, extension lists with and without the SAN OID) with derived DNS hosts and IPv4/IPv6/IPv4-mapped/bracketed literals. " +
+			"em: HostnameError{cert, host}.Error() on a third of the random certificates (hosts as VerifyHostname stores them: bracket-stripped IP literals, raw names; DNS lists emptied / IP SANs dropped at random), net.IP.String of the IP SANs carried in the line and re-checked; T3 = the three documented message forms rebuilt in the harness. " +
 			"A case is one line (a pattern or certificate with its batch of hosts); T3 = independent label-wise matcher / byte-wise lowering / rule evaluation in the harness; for ip lines T3 = the declarative IP-literal grammar (dotted quad / eight groups / one \"::\" / trailing dotted quad; the Lean spec IPLiteral re-written with strings.Split) evaluated against net.ParseIP, result bytes included."})
 }
